@@ -3,8 +3,14 @@
 (i) Moment seam: for every admissible scale triple (mu0, mu1, mu2) on a lattice inside patches and
 across matching scales (including "down then up" inside a patch), E(mu2<-mu1) E(mu1<-mu0) is
 compared with E(mu2<-mu0) along the same flavour path, exact solution method with n and 2n
-iterations: relative distance <= 1e-3 and not growing when the iterations double (non-singlet
-channels: exact composition, 1e-11).
+iterations: relative distance <= 1e-4 (the statement's 1e-3 is the x-space tolerance; the moment seam has no
+interpolation error) and shrinking at least by the factor 1/2 when the iterations double (measured: 1/4, the
+second-order discretisation of the iterated solution); non-singlet channel u - ubar: exact composition, 1e-10.
+Added families (same oracle): origins / targets / intermediate points whose nf is not the natural one of their scale (the direct
+path first runs against its overall direction inside the patch, then matches), intermediate points sitting exactly on a matching
+scale (zero-length segments, pure-matching legs), matching ratios != 1, and "overshoot" splits (the split leaves the direct
+flavour path through a neighbouring patch and returns, round trips included): these compose only if the exact backward matching
+is the matrix inverse of the forward one.
 (ii) x space, no stubs: the same comparison applied to toy PDFs on 15- and 25-point grids on
 [1e-2, 1]: <= 1e-3 on the 25-point grid and smaller than on the 15-point grid.
 """
@@ -21,20 +27,98 @@ LEVEL = "exploration"
 TECHNIQUE = "exhaustive enumeration of scale triples x orders x iteration counts through the real runner (Mellin moments) + un-stubbed x-space solves on two grids; composition oracle"
 LEVEL_TEXT = (
     "all ordered scale triples of a 6-point (scale, nf) lattice whose split path follows the direct flavour path, at LO/NLO/NNLO, are solved "
-    "directly and in two steps; the two results must agree to the accuracy of the iterated exact method and improve with it"
+    "directly and in two steps; the two results must agree to the accuracy of the iterated exact method (1e-4 with >= 15 iterations) and "
+    "improve at least linearly with it; the same for the complete families of triples with points of non-natural nf, points on a matching "
+    "scale, matching ratios != 1, and for all splits that overshoot into a neighbouring patch and come back (exact backward matching)"
 )
-LEVEL_NOTE = "scales restricted to the lattice; iterate-exact only (the approximate methods do not compose by design); x-space part: two grids, few cards"
+LEVEL_NOTE = (
+    "scales restricted to the lattices; iterate-exact and exact inversion only (the approximate methods / the expanded inversion do not compose by "
+    "design); both sides of a non-overshooting triple share kernels and matching matrices, so only the group property inside a patch and the "
+    "path logic are decided there; x-space part: two grids, few cards"
+)
 FLOOR_NONTRIVIAL = 40
 
 PID = probe.FLAVOR_PIDS
 M = [2.0, 4.5, 100.0]
 POINTS = [(1.5, 3), (2.5, 4), (3.5, 4), (4.2, 4), (6.0, 5), (10.0, 5)]
 MOMENTS = [2.0, 3.5, 6.0]
+# (scale, nf) with nf not the natural one: a direct path from (3.0, 3) upwards first runs DOWN to the charm wall at 2.0 inside nf=3,
+# one from (4.0, 5) downwards first runs UP to the bottom wall at 4.5 inside nf=5 (and the mirror images for targets)
+OFF_POINTS = [(3.0, 3), (4.0, 5)]
+# points exactly on a matching scale, on either side of it
+WALL_POINTS = [(2.0, 3), (2.0, 4), (4.5, 4), (4.5, 5)]
+# matching ratios != 1: walls at 3.0 (charm) and 3.6 (bottom), a_s discontinuous there, matching logarithms != 0
+RATIOS = [1.5, 0.8, 1.0]
+# composition distance of the iterated exact solution: O(1/n^2) discretisation, measured <= 5.9e-6 (n=15/30; 1.7e-6 at n=30/60) on the unchanged tree
+TIGHT = 1e-4
+# measured d(2n)/d(n) = 0.2500 +- 1e-4 wherever d(n) > 1e-9; required: at least first-order convergence
+RATE = 0.5
 
 
 def admissible(p0, p1, p2):
     """The split path must follow the direct one: nf1 between nf0 and nf2."""
     return min(p0[1], p2[1]) <= p1[1] <= max(p0[1], p2[1])
+
+
+ONE_PER_PATCH = [(1.5, 3), (3.5, 4), (6.0, 5)]
+OUTER = [(1.5, 3), (6.0, 5)]
+
+
+def _family_triples(thorough):
+    """The added families of triples: {family: [(order, triple, extra)]}; complete enumerations of explicit lattices.
+
+    quick is a sub-enumeration of thorough (smaller end-point lattice / fewer orders), never a sample.
+    """
+    P = POINTS
+    NLO, NNLO = [2, 0], [3, 0]
+    fam = {}
+    # (a) non-natural nf: every admissible triple of (lattice + OFF_POINTS) that contains an off point
+    #     quick: partners from the two outer patches, NLO; thorough: the whole lattice, NLO, and every second triple at NNLO
+    base = P if thorough else OUTER
+    off = [t for t in itertools.permutations(base + OFF_POINTS, 3) if admissible(*t) and any(p in OFF_POINTS for p in t)]
+    fam["offnf"] = [(NLO, t, None) for t in off] + ([(NNLO, t, None) for t in off[::2]] if thorough else [])
+    # (b) intermediate point on a wall, end points in the lattice (quick: one point per patch); plus legs that are a pure matching
+    ends = P if thorough else OUTER
+    wall = [(a, w, c) for w in WALL_POINTS for a in ends for c in ends if a != c and admissible(a, w, c)]
+    pure = [
+        ((1.5, 3), (2.0, 3), (2.0, 4)),
+        ((2.0, 3), (2.0, 4), (3.5, 4)),
+        ((3.5, 4), (2.0, 4), (2.0, 3)),
+        ((2.0, 4), (2.0, 3), (1.5, 3)),
+        ((3.5, 4), (4.5, 4), (4.5, 5)),
+        ((4.5, 4), (4.5, 5), (6.0, 5)),
+        ((6.0, 5), (4.5, 5), (4.5, 4)),
+        ((4.5, 5), (4.5, 4), (3.5, 4)),
+        ((2.0, 3), (3.5, 4), (4.5, 5)),
+        ((4.5, 5), (3.5, 4), (2.0, 3)),
+    ]
+    fam["wall"] = [(NNLO, t, None) for t in wall + pure]
+    if thorough:
+        fam["wall"] += [(NLO, t, None) for t in wall + pure] + [([1, 0], t, None) for t in wall + pure]
+    # (c) matching ratios != 1 for the monotone triples across a matching (quick: alternating NNLO / NLO; thorough: both)
+    mono = [
+        t
+        for t in itertools.permutations(P, 3)
+        if admissible(*t) and (t[0][0] - t[1][0]) * (t[1][0] - t[2][0]) > 0 and len({p[1] for p in t}) > 1
+    ]
+    rat = dict(ratios=RATIOS)
+    fam["ratios"] = [(NNLO, t, rat) for t in (mono if thorough else mono[::4])]
+    if thorough:
+        fam["ratios"] += [(NLO, t, rat) for t in mono]
+    # (d) overshoot: the intermediate nf lies outside [nf0, nf2] (the split crosses a matching and crosses it back), and round
+    #     trips p0 -> p1 -> p0 (direct evolution = identity). NNLO: non-trivial matching matrices; NLO: intrinsic columns only.
+    over = [t for t in itertools.permutations(P, 3) if not admissible(*t)]
+    trips = [(a, b, a) for a in P for b in P if a != b]
+    leaving = [t for t in trips if t[0][1] != t[1][1]]
+    if thorough:
+        fam["overshoot"] = [(NNLO, t, None) for t in over] + [(NNLO, t, rat) for t in over] + [(NLO, t, None) for t in over]
+        fam["roundtrip"] = [(NNLO, t, None) for t in trips] + [(NLO, t, None) for t in trips] + [(NNLO, t, rat) for t in leaving]
+    else:
+        # quick: every eighth overshoot triple without and (shifted by four) with the matching ratios; round trips between the
+        # points of ONE_PER_PATCH (all leave their patch)
+        fam["overshoot"] = [(NNLO, t, None) for t in over[::8]] + [(NNLO, t, rat) for t in over[4::8]]
+        fam["roundtrip"] = [(NNLO, (a, b, a), None) for a in ONE_PER_PATCH for b in ONE_PER_PATCH if a != b]
+    return fam
 
 
 def _cfg(order, its, init, targets, extra=None):
@@ -77,19 +161,25 @@ def evaluate(case):
             n = case["iterations"]
             d1, ns1 = _dist_moments(order, n, p0, p1, p2, extra)
             d2, ns2 = _dist_moments(order, 2 * n, p0, p1, p2, extra)
-            shape = "monotone" if (p0[0] - p1[0]) * (p1[0] - p2[0]) > 0 else "back-and-forth"
+            lever = (p0[0] - p1[0]) * (p1[0] - p2[0])
+            shape = "monotone" if lever > 0 else "back-and-forth" if lever < 0 or "family" not in case else "zero-leg"
             cross = "across" if len({p0[1], p1[1], p2[1]}) > 1 else "inside"
             where = f"order={order} triple={case['triple']} iterations={n}/{2*n} extra={extra}"
-            cls = f"order={order[0]}/{shape}/{cross}"
-            if not np.isfinite(d2) or d2 > 1e-3:
-                res.fail(f"moment/composition/{cls}", f"{where}: |E21 E10 - E20| / |E20| = {d2:.3e} > 1e-3 with {2*n} iterations ({d1:.3e} with {n})")
-            elif d2 > d1 * 1.05 and d2 > 1e-9:
-                res.fail(f"moment/no-improvement/{cls}", f"{where}: distance {d1:.3e} ({n} iterations) -> {d2:.3e} ({2*n} iterations) does not shrink")
+            cls = f"order={order[0]}/{shape}/{cross}" + (f"/{case['family']}" if "family" in case else "")
+            if not np.isfinite(d2) or d2 > TIGHT:
+                res.fail(f"moment/composition/{cls}", f"{where}: |E21 E10 - E20| / |E20| = {d2:.3e} > {TIGHT} with {2*n} iterations ({d1:.3e} with {n})")
+            elif d2 > d1 * RATE and d2 > 1e-9:
+                res.fail(
+                    f"moment/no-improvement/{cls}",
+                    f"{where}: distance {d1:.3e} ({n} iterations) -> {d2:.3e} ({2*n} iterations) does not shrink by the factor {RATE} at least",
+                )
             # at NNLO the valence kernel is not the minus kernel: u-ubar mixes nsV and ns-, both exact
             if max(ns1, ns2) > 1e-10:
                 res.fail(f"moment/nonsinglet-composition/{cls}", f"{where}: non-singlet channel composes only to {max(ns1, ns2):.3e}")
             res.info = {"max_dist": d2, "max_ns_dist": max(ns1, ns2), "max_ratio_2n_over_n": d2 / d1 if d1 > 1e-9 else 0.0}
             res.outcome = f"moment:{cls}"
+            if "family" in case:
+                res.info[f"max_dist_{case['family']}"] = d2
         else:
             p0, p1, p2 = [tuple(p) for p in case["triple"]]
             dists = []
@@ -112,12 +202,13 @@ def evaluate(case):
                         worst = max(worst, float(np.abs(split[i] - direct[i])[:-1].max() / scale))
                 dists.append(worst)
             where = f"order={order} triple={case['triple']} grids 15/25: distances {dists}"
+            xcls = f"order={order[0]}" + (f"/{case['family']}" if "family" in case else "")
             if not np.isfinite(dists[1]) or dists[1] > 1e-3:
-                res.fail(f"xspace/composition/order={order[0]}", f"{where}: relative distance on the 25-point grid > 1e-3")
+                res.fail(f"xspace/composition/{xcls}", f"{where}: relative distance on the 25-point grid > 1e-3")
             if dists[1] >= dists[0] and dists[1] > 1e-9:
-                res.fail(f"xspace/no-refinement-gain/order={order[0]}", f"{where}: the discrepancy does not shrink under grid refinement")
+                res.fail(f"xspace/no-refinement-gain/{xcls}", f"{where}: the discrepancy does not shrink under grid refinement")
             res.info = {"max_x_dist_25": dists[1], "max_x_dist_15": dists[0]}
-            res.outcome = "xspace"
+            res.outcome = "xspace" + (f":{case['family']}" if "family" in case else "")
     except (NotImplementedError, ValueError) as e:
         res.outcome = f"refused:{str(e)[:50]}"
         res.nontrivial = False
@@ -152,6 +243,8 @@ def run(ctx):
             dict(seam="s3", order=[2, 0], triple=[[3.0, 4], [6.0, 5], [10.0, 5]], iterations=10),
             dict(seam="s3", order=[3, 0], triple=[[3.0, 4], [3.5, 4], [4.2, 4]], iterations=10),
             dict(seam="s3", order=[2, 0], triple=[[6.0, 5], [3.0, 4], [1.5, 3]], iterations=10),
+            # overshoot in x space: up across the bottom wall and back (needs backward matching = inverse of the forward one)
+            dict(seam="s3", order=[3, 0], triple=[[3.0, 4], [6.0, 5], [4.0, 4]], iterations=10, family="overshoot"),
         ]
     cases += xs
     orders = [[1, 0], [2, 0], [3, 0]]
@@ -164,14 +257,36 @@ def run(ctx):
         for t in triples[::3]:
             cases.append(dict(seam="s2", order=[2, 0], triple=[list(p) for p in t], iterations=30, extra=dict(polarized=True)))
             cases.append(dict(seam="s2", order=[2, 0], triple=[list(p) for p in t], iterations=30, extra=dict(time_like=True)))
+    fam = _family_triples(ctx.thorough())
+    for name, lst in fam.items():
+        for order, t, extra in lst:
+            c = dict(seam="s2", order=order, triple=[list(p) for p in t], iterations=15 if not ctx.thorough() else 30, family=name)
+            if extra:
+                c["extra"] = extra
+            cases.append(c)
     ctx.run_cases(cases, evaluate, chunksize=1)
     ctx.extra["admissible_triples"] = len(triples)
+    ctx.extra["family_cases"] = {k: len(v) for k, v in fam.items()}
     ctx.rule = (
         f"all {len(triples)} ordered triples of the lattice {POINTS} (charm wall at 2, bottom at 4.5) whose intermediate nf lies between the end "
         "points' nf (monotone, back-and-forth, inside a patch and across one or two matchings) x LO/NLO/NNLO, iterate-exact with n and 2n iterations, exact "
-        "backward matching; x space: real solves on 15/25-point grids applied to the Les Houches toy PDFs; non-trivial = solved"
+        f"backward matching; added families, each a complete enumeration of its (tier-dependent) lattice ({ctx.extra['family_cases']} cases): offnf = every "
+        f"admissible triple of ({'the lattice' if ctx.thorough() else str(OUTER)} + {OFF_POINTS}) containing a point of non-natural nf (the direct path runs "
+        f"down/up inside the patch before/after its matching), NLO{' and every second at NNLO' if ctx.thorough() else ''}; wall = intermediate point in "
+        f"{WALL_POINTS} (on a matching scale, either side) between end points of {'the lattice' if ctx.thorough() else str(OUTER)} + 10 triples with a "
+        f"pure-matching leg, {'LO/NLO/NNLO' if ctx.thorough() else 'NNLO'}; ratios = {'the 38' if ctx.thorough() else 'every fourth of the 38'} monotone triples "
+        f"across a matching with matching ratios {RATIOS}, {'NLO and NNLO' if ctx.thorough() else 'NNLO'}; overshoot = "
+        f"{'every' if ctx.thorough() else 'every eighth (without the ratios) and every eighth shifted by four (with the ratios)'} ordered triple of the lattice "
+        f"whose intermediate nf lies outside the end points' nf, NNLO{' without and with the ratios, and NLO' if ctx.thorough() else ''}; roundtrip = every "
+        f"p0 -> p1 -> p0 of {'the lattice, NNLO and NLO, and NNLO with the ratios where it leaves its patch' if ctx.thorough() else str(ONE_PER_PATCH) + ', NNLO'}; "
+        "x space: real solves on 15/25-point grids applied to the Les Houches toy PDFs; non-trivial = solved"
     )
     ctx.assumptions += [
         "only the iterated exact method is held to composition (the property restricts itself to exact methods with many iterations)",
         "downward legs use the exact inverse matching, so that a split through a lower nf composes with the direct path",
+        "overshoot / roundtrip triples read 'the same flavour path' as 'the same end points (scale, nf)': the excursion into the neighbouring patch "
+        "must cancel, which holds to the accuracy of the solution method because inversion='exact' promises the matrix inverse of the forward matching; "
+        "the expanded inversion is not held to it (it composes only up to higher orders, by design)",
+        f"moment seam: bound {TIGHT} (the 1e-3 of the statement is the x-space tolerance; measured maximum 5.9e-6 at 15/30 iterations, 1.7e-6 at 30/60) and a decrease by "
+        f"at least the factor {RATE} when the iterations double (measured 0.2500: second-order discretisation)",
     ]
